@@ -38,7 +38,7 @@ def run_case(case, peek=None):
     import websocket
 
     obs = Obs()
-    sched = simkit.Sched(horizon=5000.0, repo=REPO)
+    sched = simkit.Sched(horizon=1200.0, repo=REPO)
     net = simkit.SimNet(sched)
     segs = case["segments"]
     timeline = []
